@@ -304,3 +304,6 @@ V("c16-silent-keypath-local", "C16", BI, "    return path[4 + ((4 - padded_len) 
 
 V("c17-reset-only-for-exception", "C17", DB, "        try:\n            yield\n        except Exception as exc:\n            raise exc\n        else:\n            for key, value in self.cache.items():\n                if value is not DELETED:\n                    self.wrapped_db[key] = value\n                elif do_deletes:\n                    self.wrapped_db.pop(key, None)\n                # if do_deletes is False, ignore deletes to underlying db\n        finally:\n            self.cache = {}",
   "        try:\n            yield\n        except Exception:\n            self.cache = {}\n            raise\n        try:\n            for key, value in self.cache.items():\n                if value is not DELETED:\n                    self.wrapped_db[key] = value\n                elif do_deletes:\n                    self.wrapped_db.pop(key, None)\n        finally:\n            self.cache = {}", rule="ORD4")
+V("eq-proof-guard-plus-one", "C15", SM, "            if len(node_updates) <= branch_point:", "            if len(node_updates) < branch_point + 1:", expect="silent")
+V("eq-proof-bit-length", "C15", SM, "            for bit in reversed(range(self._branch_size)):\n                if path_diff & (1 << bit) > 0:\n                    branch_point = (self._branch_size - 1) - bit\n                    break\n", "            branch_point = self._branch_size - path_diff.bit_length()\n", expect="silent")
+V("c15-index-from-end", "C15", SM, "            self._branch[branch_point] = node_updates[branch_point]", "            self._branch[branch_point] = node_updates[branch_point - self._branch_size]", rule="EFF5")
